@@ -80,8 +80,11 @@ fn strategy() -> BoxedStrategy<Case> {
     vec(0u8..OBS.len() as u8, 0..=5),
     prop_oneof![2 => Just(vec![]), 1 => vec(0u8..OBS.len() as u8, 0..=4)],
     prop_oneof![3 => Just(None), 1 => (0u8..6u8).prop_map(Some)],
+    // binary leaves not beneath a ReplaceSource hold invalid UTF-8 now and then (source() and buffer() then
+    // differ in length); everything else stays ASCII
+    vec(any::<u16>(), 0..=4),
   )
-    .prop_map(|(x, edit, hx, hy, observed_build)| Case { shared_map: None, x, edit, hx, hy, observed_build })
+    .prop_map(|(x, edit, hx, hy, observed_build, bin)| Case { shared_map: None, x: crate::props::common::with_binary(x, &bin), edit, hx, hy, observed_build })
     .boxed()
 }
 
@@ -173,7 +176,27 @@ pub struct Observed {
   pub stream_lines: std::collections::BTreeMap<u32, (String, Option<String>, u32)>,
 }
 
+thread_local! {
+  /// set by the check for trees with a CachedSource over text that is not ASCII (lossy-decoded binary
+  /// leaves): a warm CachedSource mixes char and byte columns there (known finding W2), so positions and
+  /// attribution are not compared for such a tree - the text views, sizes, equality and hashes are
+  static TEXT_ONLY: std::cell::Cell<bool> = const { std::cell::Cell::new(false) };
+}
+
 pub fn observe_all(s: &dyn Source, exact: bool) -> Observed {
+  let mut o = observe_all_inner(s, exact);
+  if TEXT_ONLY.with(|t| t.get()) {
+    o.maps = None;
+    o.streams = None;
+    o.infos = [(0, 0), (0, 0)];
+    o.map_attr = [vec![], vec![]];
+    o.stream_attr = vec![];
+    o.stream_lines = Default::default();
+  }
+  o
+}
+
+fn observe_all_inner(s: &dyn Source, exact: bool) -> Observed {
   let source = s.source().to_string();
   let m = [s.map(&opts(false, false)), s.map(&opts(true, false))];
   let map_attr = [
@@ -293,6 +316,7 @@ impl Prop for C14 {
           }
         }
       };
+      TEXT_ONLY.with(|t| t.set(xs.has_cached() && !(crate::spec::model_text(xs).is_ascii() && crate::spec::model_text(&ys).is_ascii())));
       let mut same_spec = ys == *xs;
       let mut exact = !xs.has_cached() && !ys.has_cached();
       let (x, y) = match case.shared_map {
@@ -307,6 +331,8 @@ impl Prop for C14 {
           None => (build(xs), build(&ys)),
         },
       };
+      // before any other observer: the cheap scalar answers of a cold object (they must not change later)
+      let (size_cold_x, size_cold_y) = (x.size(), y.size());
       // before any observer
       let eq0 = *x == *y;
       if eq0 != (*y == *x) {
@@ -340,6 +366,12 @@ impl Prop for C14 {
       }
       // observations
       let ox = observe_all(&*x, exact);
+      if ox.size != size_cold_x || x.size() != size_cold_x {
+        return Err(format!("size() answered {size_cold_x} on the cold object and {} / {} after other observers were called", ox.size, x.size()));
+      }
+      if y.size() != size_cold_y {
+        return Err(format!("size() of y answered {size_cold_y} on the cold object and {} later", y.size()));
+      }
       let ox2 = observe_all(&*x, exact);
       if ox != ox2 {
         return Err("an observer returned a different answer when repeated on an unchanged value".into());
@@ -360,6 +392,9 @@ impl Prop for C14 {
       }
       // a fresh, never observed build still equals the observed one
       let fresh = build(xs);
+      if fresh.size() != size_cold_x || fresh.buffer().len() != size_cold_x {
+        return Err(format!("a freshly built twin answers size() = {} / buffer().len() = {}, x answered {size_cold_x} when cold", fresh.size(), fresh.buffer().len()));
+      }
       if *x != *fresh || hash_of(&*fresh) != hx0 {
         return Err("an observed source is no longer equal to / hashes differently from a freshly built one".into());
       }
